@@ -33,6 +33,7 @@ fn grid() -> Vec<Cfg> {
             let maxes: [Option<u128>; 6] = [None, Some(i / 2), Some(5_000_000_000), Some(3_600_000_000_000), Some(3650 * DAY), Some(i)];
             for &mx in &maxes {
                 v.push(Cfg { kind: "exp", initial_ns: i, mult: m, max_ns: mx, factor: 0.0 });
+                v.push(Cfg { kind: "reconnect-custom-exp", initial_ns: i, mult: m, max_ns: mx, factor: 0.0 });
                 for &f in &[0.0, 0.1, 0.5, 1.0] {
                     v.push(Cfg { kind: "exp-random", initial_ns: i, mult: m, max_ns: mx, factor: f });
                 }
@@ -82,6 +83,13 @@ fn make(c: &Cfg) -> Box<dyn Fn(usize) -> Option<Duration> + Send + Sync> {
             let p = ReconnectPolicy::exponential_random(dur(c.initial_ns), dur(c.max_ns.unwrap()), c.factor);
             Box::new(move |a| p.delay_for_attempt(a))
         }
+        "reconnect-custom-exp" => {
+            // the same backoff handed to the reconnect layer as a custom policy
+            let b = ExponentialBackoff::new(dur(c.initial_ns)).multiplier(c.mult);
+            let b = if let Some(m) = c.max_ns { b.max_interval(dur(m)) } else { b };
+            let p = ReconnectPolicy::Custom(std::sync::Arc::new(b));
+            Box::new(move |a| p.delay_for_attempt(a))
+        }
         _ => {
             let p = ReconnectPolicy::default();
             Box::new(move |a| p.delay_for_attempt(a))
@@ -129,8 +137,8 @@ pub fn scenario(sseed: u64, tier: Tier) -> Report {
             2 => Some(initial.saturating_mul(rng.range(1, 1000) as u128)),
             _ => Some(rng.below(3650) as u128 * DAY + rng.below(1_000_000_000) as u128),
         };
-        let kind = *rng.pick(&["exp", "exp-random", "reconnect-exp", "reconnect-exp-random"]);
-        Cfg { kind, initial_ns: initial, mult: if kind.starts_with("reconnect") { 2.0 } else { mult }, max_ns: if kind.starts_with("reconnect") { Some(max.unwrap_or(5_000_000_000)) } else { max }, factor: rng.below(101) as f64 / 100.0 }
+        let kind = *rng.pick(&["exp", "exp-random", "reconnect-exp", "reconnect-exp-random", "reconnect-custom-exp"]);
+        Cfg { kind, initial_ns: initial, mult: if kind.starts_with("reconnect-exp") { 2.0 } else { mult }, max_ns: if kind.starts_with("reconnect-exp") { Some(max.unwrap_or(5_000_000_000)) } else { max }, factor: rng.below(101) as f64 / 100.0 }
     };
     let mut rep = Report::default();
     let f = make(&cfg);
